@@ -624,6 +624,21 @@ def _log_pairs(thorough):
     return out
 
 
+def _sev_exprs(thorough):
+    """Severity-expression layouts: 'N' / 'M' = a symbolic 5- / 7-letter severity name."""
+    ex = ["N", "=M", ">=N", ">M", "<=N", "<M", "N,M", ">N,<=M", "*", "N,", "<=M,=N,>N", "N;M", "!N", ">=N,M", "<M,N", ">N,=M", "N,>=M"]
+    if thorough:
+        ops = ["", "=", ">", ">=", "<", "<="]
+        for a in ops:
+            for b in ops:
+                for x, y in (("N", "M"), ("M", "N")):
+                    e = a + x + "," + b + y
+                    if e not in ex:
+                        ex.append(e)
+        ex += ["N,M,N", ">=M,N,<N", "*,N", "N,*", ">=", "N,,M", "=>N", "N.M"]
+    return [{"_name": "e%02d" % i, "VP_EXPR": '"%s"' % e} for i, e in enumerate(ex)]
+
+
 RECIPES["C18"] = {
     "units": ["src/log.c", "src/config.c", "src/set.c", "src/common.c"],
     "jobs": [
@@ -633,21 +648,21 @@ RECIPES["C18"] = {
          "unwind": 12, "unwindset": CONFIG_UW + ["strcmp.0:24", "strcasecmp.0:8", "strlen.0:24", "strcpy.0:24", "memcpy.0:40",
                                                  "vpm_num.0:12", "vpm_num.1:12", "vpm_num.2:12", "vpm_num.3:12", "log_vmessage.0:5", "log_vmessage.1:5", "strchr.0:24"],
          "fp_restrict": FP_LOG, "timeout": 900},
-        # not run: a symbolic severity name makes the xstrdup() inside log_parse_type_sevset an
-        # allocation of symbolic size; no layout finished inside 10 min / 20 GB (kept for reference)
-        {"name": "sevset", "tiers": [], "src": ["C18_sevset.c"] + CONFIG_TU, "gen": _gen_shim.gen,
+        # severity expressions: works since the working copy made by log_parse_type_sevset() is modelled
+        # as a block of fixed size (harness/C18_sevset.c); with the real xstrdup() the allocation has
+        # symbolic size and no layout finished inside 10 min / 20 GB
+        {"name": "sevset", "src": ["C18_sevset.c"] + CONFIG_TU, "gen": _gen_shim.gen,
          "defs": {"all": {"VP_HAVE_LOG": None}},
-         "splits": {"all": [{"_name": "e%02d" % i, "VP_EXPR": '"%s"' % e} for i, e in enumerate(
-             ["N", "=M", ">=N", ">M", "<=N", "<M", "N,M", ">N,<=M", "*", "N,", "<=M,=N,>N", "N;M", "!N"])]},
-         "unwind": 40, "unwindset": CONFIG_UW + ["strcmp.0:24", "strcasecmp.0:12", "strlen.0:40", "strcpy.0:40", "strchr.0:40",
+         "splits": {"quick": _sev_exprs(False), "thorough": _sev_exprs(True)},
+         "unwind": 50,  "unwindset": CONFIG_UW + ["strcmp.0:24", "strcasecmp.0:12", "strlen.0:40", "strcpy.0:40", "strchr.0:40",
                                                  "log_parse_type_sevset.0:8", "log_parse_type_sevset.1:8", "log_parse_type_sevset.2:8",
-                                                 "log_parse_type_sevset.3:8", "log_parse_type_sevset.4:8"],
+                                                 "log_parse_type_sevset.3:8", "log_parse_type_sevset.4:8", "vp_xstrdup48.0:50"],
          "fp_restrict": FP_LOG, "timeout": 600},
         {"name": "route", "tiers": [], "src": ["C18_route.c"] + CONFIG_TU, "gen": _gen_shim.gen,
-         "defs": {"all": {"VP_HAVE_LOG": None}},
+         "defs": {"all": {"VP_HAVE_LOG": None, "VP_TYPED_REALLOC": None}},
          "splits": {"quick": _log_pairs(False), "thorough": _log_pairs(True)},
          "unwind": 24, "unwindset": CONFIG_UW + ["strcmp.0:24", "strcasecmp.0:24", "strlen.0:24", "strcpy.0:24", "strchr.0:24", "memcpy.0:40",
-                                                 "log_type_cleanup.0:8", "log_type_cleanup.1:8", "ctype_init.0:31", "ctype_init.1:17", "vpm_num.0:12", "vpm_num.1:12", "vpm_num.2:12", "vpm_num.3:12"],
+                                                 "log_type_cleanup.0:8", "log_type_cleanup.1:8", "vp_xstrdup48.0:50", "vp_log_memcpy.0:40", "realloc.0:40", "realloc.1:80", "ctype_init.0:31", "ctype_init.1:17", "vpm_num.0:12", "vpm_num.1:12", "vpm_num.2:12", "vpm_num.3:12"],
          "fp_restrict": FP_LOG, "timeout": 900},
     ],
 }
@@ -686,8 +701,9 @@ META = {
             "trusted: strtoul model (glibc in replay). Outside: render/read-back through the entry parser on symbolic text (DESIGN A2.9); floats; (digits, components) beyond (1,3),(3,1)"),
     "C17": ("start-up (first file merged by the real conf_replace_value, then the real module constructor) and reload (second file merged): afterwards the xquery service table / the compiled class rules equal the SECOND file, for every edit kind (add, remove, in place, swap, to/from empty; criterion added/dropped/changed) with symbolic protocol words, class values, patterns, boolean words and symbolic per-service reference counts",
             "trusted: files are materialised as scratch trees (parser bypassed); shadow header. Outside: SIGUSR1 delivery; more than 2 services / rules"),
-    "C18": ("log_vmessage fan-out on an ARBITRARY routing table (3 facilities x 6 severities x any subset of 3 destinations, written into the real log_type objects) and a symbolic message (facility, severity): recorded exactly by the destinations of its facility and of `*`, once per mapping, attributed and complete; at verbosity 0 nothing reaches stdout (C09), at verbosity 1 exactly warnings and errors",
-            "trusted: recording back end. Outside (not decided): derivation of the table from the logs section (severity expressions, reload, destination life cycle) - harnesses exist but do not finish (DESIGN A2.11); file back end"),
+    "C18": ("(1) log_vmessage fan-out on an ARBITRARY routing table (3 facilities x 6 severities x any subset of 3 destinations, written into the real log_type objects) and a symbolic message (facility, severity): recorded exactly by the destinations of its facility and of `*`, once per mapping, attributed and complete; at verbosity 0 nothing reaches stdout (C09), at verbosity 1 exactly warnings and errors. "
+            "(2) log_parse_type_sevset on 17 expression layouts (names, =, <, <=, >, >=, comma lists in every order of range and plain items, *, trailing comma, unknown syntax) with SYMBOLIC severity names (incl. a non-name): accepted exactly when in the documented syntax, and the severity set is the documented meaning; anything else rejected as a whole",
+            "trusted: recording back end; the fixed-size model of the working copy xstrdup() makes (C18_sevset.c). Outside (not decided): log_rescan_conf joining the two (attaching the destinations of each accepted entry, reload, destination life cycle) - harness C18_route.c exists but does not finish (DESIGN A2.11); file back end"),
     "C19": ("comparator lemmas on the whole key domain (total order, consistency with equality); one operation (insert fresh/equal, remove with/without disposal, find, lower bound, clear with/without disposal) with symbolic keys and operand from EVERY binary-tree shape of <= 4/6 nodes (driver enumerates 23/197 shapes): results agree with the sorted-array model, post-state is a search tree whose in-order walk = threaded list = model, count right, cleanup exactly once on exactly the elements that left",
             "trusted: the audit in C19_step.c; every shape is a pre-state and every post-state is shown to be a valid shape, so sequences of operations on sets of <= 4/6 elements are covered by induction"),
 }
